@@ -16,7 +16,7 @@
 (*    { sub.pre sub.water [sub.crop nitro.mineral] nitro.move sub.nitro }^k *)
 (*    day.denit day.end }*  run.end                                         *)
 (***************************************************************************)
-EXTENDS FixedPoint, CalendarFn, Json, TLC, FiniteSets
+EXTENDS FixedPoint, CalendarFn, SineTable, Json, TLC, FiniteSets
 
 Trace == ndJsonDeserialize("trace.ndjson")
 
@@ -381,6 +381,50 @@ C04_NoSilentReuse == (AfterWeather /\ HasGen) => Covered(Ev.zeit)
 \* ... and a run whose input does not cover its period does not report success
 C04_FailsWhenUncovered == (l > 1 /\ Ev.ev = "run.end" /\ HasGen /\ Gen.expectFail) => ~Ev.ok
 C04_All == C04_Lockstep /\ C04_Record /\ C04_NoSilentReuse /\ C04_FailsWhenUncovered
+
+
+\* =============================================================================================
+\* C20  groundwater level follows the supplied series / oscillates between the two given levels
+\*      (header: Gen.gws = <<<<date, level in hundredths of dm>>, ...>> ascending)
+\* =============================================================================================
+AfterGw == l > 1 /\ Ev.ev = "day.gw"
+GDates(s) == {s[i][1] : i \in 1..Len(s)}
+GValueAt(s, d) == LET i == CHOOSE i \in 1..Len(s) : s[i][1] = d IN s[i][2]
+GPrev(s, d) == CHOOSE p \in GDates(s) : p < d /\ \A q \in GDates(s) : q < d => q <= p
+GNext(s, d) == CHOOSE n \in GDates(s) : n > d /\ \A q \in GDates(s) : q > d => q >= n
+\* declarative level as <<numerator, denominator>> in hundredths of dm
+GLevel(s, d) ==
+  IF d \in GDates(s) THEN <<GValueAt(s, d), 1>>
+  ELSE IF \A q \in GDates(s) : q > d THEN <<s[1][2], 1>>
+  ELSE IF \A q \in GDates(s) : q < d THEN <<s[Len(s)][2], 1>>
+  ELSE LET p == GPrev(s, d)  n == GNext(s, d)
+       IN <<GValueAt(s, p) * (n - p) + (GValueAt(s, n) - GValueAt(s, p)) * (d - p), n - p>>
+C20_Series == (AfterGw /\ Cfg.gwfrom = 2 /\ ix.gen > 0 /\ Has(Gen, "gws")) =>
+   LET lv == GLevel(Gen.gws, Ev.zeit) IN Abs((Ev.grw \div 100) * lv[2] - lv[1] * 100) <= lv[2] + 1
+C20_Sinus == (AfterGw /\ Cfg.gwfrom = 0) =>
+   /\ Abs(2 * (Cfg.gw - Ev.grw) - (Cfg.grlo - Cfg.grhi) * Sin6[((Ev.doy + Cfg.gwphase) % 360) + 1]) <= (Cfg.grlo - Cfg.grhi) + 6   \* table entries are rounded at 1e-6
+   /\ Ev.grw >= Cfg.grhi * 1000000 - 2 /\ Ev.grw <= Cfg.grlo * 1000000 + 2
+C20_Constant == (AfterGw /\ Cfg.gwfrom = 1) => Ev.grw = Cfg.gw
+C20_All == C20_Series /\ C20_Sinus /\ C20_Constant
+
+\* =============================================================================================
+\* C15  soil hydraulic parameters physically ordered; saturated below the table; same level, same parameters
+\* =============================================================================================
+AtParams == l > 1 /\ Ev.ev \in {"run.config", "day.gw"}
+PL == 1..Len(Ev.W)
+C15_Order == AtParams => \A i \in PL : 0 < Ev.WMIN[i] /\ Ev.WMIN[i] < Ev.W[i] /\ Ev.PORGES[i] < 1000000000
+\* known finding H14 (listed in known_findings.json, the header says so): texture-table route, organic carbon of the
+\* layer's horizon above 2.3 %: the capacity correction is not matched by the pore volume. Everything else is judged.
+ExemptH14(i) == ix.gen > 0 /\ Has(Gen, "knownH14") /\ Gen.knownH14 /\ Gen.route = "table" /\ Gen.corg100[i] > 230
+C15_FcLePv == AtParams => \A i \in PL : Ev.W[i] <= Ev.PORGES[i] \/ ExemptH14(i)
+C15_Threshold == AtParams => Ev.WMIN[1] < Ev.WRED /\ Ev.WRED < Ev.W[1]
+\* a layer that lies entirely below the table has field capacity = pore volume
+C15_Saturated == AfterGw => \A i \in PL : ((i - 1) * 1000000 >= Ev.grw) => Ev.W[i] = Ev.PORGES[i]
+\* the first day this level was seen gave the same parameters
+FirstSeen == LET k == CHOOSE k \in 1..Len(gwseen) : gwseen[k][1] = Ev.grw IN Trace[gwseen[k][2]]
+C15_SameLevel == AfterGw => /\ FirstSeen.W = Ev.W /\ FirstSeen.WMIN = Ev.WMIN /\ FirstSeen.PORGES = Ev.PORGES
+                            /\ FirstSeen.WNOR = Ev.WNOR /\ FirstSeen.WRED = Ev.WRED
+C15_All == C15_Order /\ C15_FcLePv /\ C15_Threshold /\ C15_Saturated /\ C15_SameLevel
 
 \* ---------------------------------------------------------------------------------------------
 Alias == [l |-> l, pc |-> pc, nsub |-> nsub,
